@@ -1007,6 +1007,40 @@ pub fn generate(prop: &str, tier: &str, seed: u64, out: &mut impl Write) {
                 w!("reqenc WMRX 7 {h} 300 A5"); w!("#@ C19 req WMRX 7 {h}");
                 w!("reqenc RWMX 1 2 3 {h} 300 A5"); w!("#@ C19 req RWMX 1 2 3 {h}");
             } }
+            // containers taken from ANY decoded PDU (P = response bytes, Q = request bytes) placed in any variant
+            for bc in [0usize, 1, 2, 3, 31, 250, 254, 255] { for fc in [1u8, 2] {
+                let mut p = vec![fc, bc as u8]; p.extend(r.bytes(bc)); let h = hex_of(&p);
+                w!("reqenc WMCS 7 P{h} 300 A5"); w!("#@ C19 req WMCS 7 P{h}");
+                w!("rspenc RCS P{h} 300 A5"); w!("#@ C19 rsp RCS P{h}");
+                w!("rspenc RDIS P{h} 300 A5"); w!("#@ C19 rsp RDIS P{h}");
+            } }
+            for q in [0usize, 1, 3, 7, 8, 9, 16, 17, 1999, 2000, 2033, 2040] { for extra in [0usize, 1, 2] { for dirty in [false, true] {
+                let need = (q + 7) / 8; let bc = need + extra;
+                if bc > 255 { continue; }
+                let mut d = r.bytes(bc);
+                if !dirty && q % 8 != 0 { d[need - 1] &= (1u8 << (q % 8)) - 1; }
+                let mut p = vec![0x0Fu8, 0x12, 0x34, (q / 256) as u8, (q % 256) as u8, bc as u8]; p.extend(d); let h = hex_of(&p);
+                // dirty padding is forwarded as received: only the model/crate comparison applies to it
+                w!("reqenc WMCS 7 Q{h} 300 A5"); w!("rspenc RCS Q{h} 300 A5"); w!("rspenc RDIS Q{h} 300 A5");
+                if !dirty { w!("#@ C19 req WMCS 7 Q{h}"); w!("#@ C19 rsp RCS Q{h}"); w!("#@ C19 rsp RDIS Q{h}"); }
+            } } }
+            // coils decoded from a request whose data is SHORTER than its quantity needs (open finding D5b region), reused
+            for (q, bc) in [(4usize, 0usize), (9, 1), (17, 1)] {
+                let mut p = vec![0x0Fu8, 0, 1, 0, q as u8, bc as u8]; p.extend(r.bytes(bc)); let h = hex_of(&p);
+                w!("reqenc WMCS 7 Q{h} 300 A5"); w!("rspenc RCS Q{h} 300 A5");
+            }
+            for q in [0usize, 1, 2, 3, 100, 125, 126, 127] { for fc in [0x10u8, 0x17] {
+                let mut p = vec![fc]; if fc == 0x17 { p.extend([0, 9, 0, 2]); }
+                p.extend([0x12, 0x34, 0, q as u8, (2 * q) as u8]); p.extend(r.bytes(2 * q)); let h = hex_of(&p);
+                w!("reqenc WMRS 7 Q{h} 300 A5"); w!("#@ C19 req WMRS 7 Q{h}");
+                w!("reqenc RWMS 1 2 3 Q{h} 300 A5"); w!("#@ C19 req RWMS 1 2 3 Q{h}");
+                for k in ["RHRS", "RIRS", "RWMS"] { w!("rspenc {k} Q{h} 300 A5"); w!("#@ C19 rsp {k} Q{h}"); }
+            } }
+            for bc in [0usize, 1, 2, 3, 4, 5, 253, 254, 255] { for fc in [3u8, 4, 0x17] {
+                let mut p = vec![fc, bc as u8]; p.extend(r.bytes(bc)); let h = hex_of(&p);
+                for k in ["RHRS", "RIRS", "RWMS"] { w!("rspenc {k} P{h} 300 A5"); w!("#@ C19 rsp {k} P{h}"); }
+                w!("reqenc WMRS 7 P{h} 300 A5"); w!("#@ C19 req WMRS 7 P{h}");
+            } }
             let wsizes: Vec<usize> = (120..=135usize).chain([136, 150, 200, 255, 256, 257, 300, 1000]).chain(if tier == "thorough" { (136..=300).collect::<Vec<_>>() } else { vec![] }).chain([32767, 32768, 65535, 65536, 70000]).collect();
             for n in wsizes {
                 let ws = words(r, n); let s = words_str(&ws);
